@@ -295,6 +295,9 @@ func buildAttacks(r *spec.Rand, n int) []attack {
 	for i := 0; i < 6; i++ {
 		add("disc/stopped-reading", "subscriber of the witness topic stops reading, then closes", nil) // special
 	}
+	for i := 0; i < 4; i++ {
+		add("disc/stalled-then-cut", "subscriber stops reading until a bystander's deliveries block on it, then is cut", nil) // special
+	}
 	return as
 }
 
@@ -433,6 +436,12 @@ func c05Batch(batchID int, seed uint64, n int) {
 					c.Close()
 				}()
 			}
+		case "disc/stalled-then-cut":
+			if sig, desc := c05Stalled(b, r); sig != "" {
+				out.Violation(sig, a.name+": "+desc, nil)
+				out.End()
+				return
+			}
 		default:
 			detail = a.run(b, r)
 		}
@@ -460,6 +469,62 @@ func c05Batch(batchID int, seed uint64, n int) {
 	}
 	out.Count("c05.witness_messages", int64(wseq))
 	out.Count("c05.broker_processes", 1)
+}
+
+// c05Stalled: an offender subscribes and stops reading (small receive buffer);
+// a bystander floods the topic until its own pings stop being answered, i.e. its
+// processor in the broker is parked delivering to the offender; then the
+// offender is cut. The bystander must come back to life.
+func c05Stalled(b *brokerProc, r *spec.Rand) (string, string) {
+	conn, err := net.DialTimeout("tcp", b.addr, 5*time.Second)
+	if err != nil {
+		return "", ""
+	}
+	if tc, ok := conn.(*net.TCPConn); ok {
+		tc.SetReadBuffer(4096)
+	}
+	off := rawclient.New("offender", conn, rawclient.AckNone)
+	defer off.Close()
+	off.SendPacket(connectPacket(connectOpts{ClientID: uniqueCID("off"), Clean: true, KeepAlive: 600}))
+	off.SendPacket(&rc.Packet{Type: rc.SUBSCRIBE, ID: 1, Filters: [][]byte{[]byte("flood/a")}, QoSs: []byte{0}})
+	if err := off.WaitFor(func(l []rawclient.Event, closed bool) bool { return countType(l, rc.SUBACK) == 1 }, 5*time.Second); err != nil {
+		return "", ""
+	}
+	off.PauseReading()
+	by, err := b.connect(uniqueCID("bystander"), connectOpts{Clean: true, KeepAlive: 600})
+	if err != nil {
+		return "", ""
+	}
+	defer by.Close()
+	payload := make([]byte, 8000)
+	pings := 0
+	parked := false
+	for sent := 0; sent < 48<<20 && !parked; {
+		for k := 0; k < 64; k++ {
+			by.SendPacket(&rc.Packet{Type: rc.PUBLISH, Topic: []byte("flood/a"), Payload: payload})
+			sent += 8011
+		}
+		by.SendPacket(&rc.Packet{Type: rc.PINGREQ})
+		pings++
+		want := pings
+		if err := by.WaitFor(func(l []rawclient.Event, closed bool) bool { return countType(l, rc.PINGRESP) >= want }, 250*time.Millisecond); err != nil {
+			parked = true // the bystander's processor is blocked on the offender's full outgoing ring
+		}
+	}
+	if !parked {
+		out.Count("c05.stalled_not_reached", 1)
+		return "", ""
+	}
+	out.Count("c05.stalled_reached", 1)
+	off.Close() // the cut
+	want := pings
+	if err := by.WaitFor(func(l []rawclient.Event, closed bool) bool { return countType(l, rc.PINGRESP) >= want }, 10*time.Second); err != nil {
+		if by.Closed() {
+			return "c05:bystander-disconnected", "the flooding bystander was disconnected when the stalled subscriber was cut"
+		}
+		return "c05:bystander-stuck", fmt.Sprintf("after the stalled subscriber was cut the bystander's connection stays dead: %d of %d PINGREQ answered (%v)", countType(by.Log(), rc.PINGRESP), pings, err)
+	}
+	return "", ""
 }
 
 func TestC05(t *testing.T) {
